@@ -83,13 +83,13 @@ def gen_entry(d, ref, by_tx, fusions, circs, counters):
         ids += [f"2-{vargen.record_id(x)}" for x in d.sample(by_tx.get(f['atx'], []),
             d.randint(0, 1)) if x['kind'] == 'small']
         orf = [f'ORF{d.randint(1, 3)}'] if d.chance(0.15) else []
-        return '|'.join([f['id']] + orf + ids + [idx(f['id'])])
+        return '|'.join([f['id']] + orf + ids + alt_ids() + [idx(f['id'])])
     if r < 0.5 and circs:
         c = d.choice(circs)
         ids = [vargen.record_id(x) for x in d.sample(by_tx.get(c['tx'], []), d.randint(0, 2))
             if x['kind'] == 'small']
         orf = [f'ORF{d.randint(1, 3)}'] if d.chance(0.3) else []
-        return '|'.join([c['id']] + orf + ids + [idx(c['id'])])
+        return '|'.join([c['id']] + orf + ids + alt_ids() + [idx(c['id'])])
     cands = [t for t in tids if any(x['kind'] in ('small', 'as') for x in by_tx.get(t, []))]
     if not cands:
         tid = d.choice(tids)
